@@ -30,13 +30,14 @@ static void other_thread(quill::Logger* lg) { std::thread t([lg]() { for (int i 
 // child body: returns only for the "ret" path
 static int child(std::string const& mode, int k, bool with_thread, std::string const& file, int cfg)
 {
-  alarm(40);
+  alarm(120);
   int sig = 0;
   if (mode == "SIGTERM") sig = SIGTERM; else if (mode == "SIGINT") sig = SIGINT; else if (mode == "SIGSEGV") sig = SIGSEGV; else if (mode == "SIGABRT") sig = SIGABRT; else if (mode == "SIGFPE") sig = SIGFPE; else if (mode == "SIGILL") sig = SIGILL;
   quill::BackendOptions bo; bo.sleep_duration = std::chrono::microseconds{(k % 2) ? 0 : 300};   // backend busy-polling or sleeping
   if (cfg == 1) bo.wait_for_queues_to_empty_before_exit = false;                                  // the signal handler must flush on its own
   if (cfg == 2) bo.log_timestamp_ordering_grace_period = std::chrono::microseconds{200000};       // statements younger than the grace period at the stop
-  if (sig) quill::Backend::start<quill::FrontendOptions>(bo, quill::SignalHandlerOptions{}); else quill::Backend::start(bo);
+  quill::SignalHandlerOptions so; so.timeout_seconds = 100;   // generous: the check may run on a loaded machine
+  if (sig) quill::Backend::start<quill::FrontendOptions>(bo, so); else quill::Backend::start(bo);
   quill::Logger* lg = make_logger(file);
   if (with_thread) other_thread(lg);
   for (int i = 0; i < k; ++i) LOG_INFO(lg, "M{}", i);
